@@ -2,8 +2,9 @@
 // Lock-step reference models over generated histories, under ASan+UBSan with the pool-poisoning hook.
 //
 // modes
-//   cabinet    random histories on one Cabinet<Obj>: alloc/update/free/at/[]/clear/foreach-with-removal/reserve
-//   cabinet-x  every history of fixed --depth over a 15-operation alphabet (tokens addressed by issue order)
+//   cabinet    random histories on one Cabinet<Obj>: alloc/update/free/at/[]/clear/foreach-with-removal/reserve, with live,
+//              stale, null (id 0) and forged tokens
+//   cabinet-x  every history of fixed --depth over a 16-operation alphabet (tokens addressed by issue order, plus the null token)
 //   pool       random alloc/free histories on 1-2 ObjectPool<T> (three probe types, retention limits 0,1,2,3,64,unbounded)
 //   fd         random copy/move/assign/swap/reset/close/destroy histories on up to 6 Fd handles over recording
 //              close functions and real pipe descriptors
@@ -250,18 +251,36 @@ struct CabWorld {
         model_free(k);
     }
 
-    void op_free_stale(const Token &t) {
+    //! is position p a cell that is currently on the cabinet's free list (handed out since the last clear, not live now)?
+    bool slot_is_free(size_t p) const {
+        if (!used_pos.count(p)) return false;
+        for (auto &kv : live) if (kv.first.second == p) return false;
+        return true;
+    }
+    //! bookkeeping for operations with tokens that are not live: kind = "stale" (issued and freed), "null" (id 0: Token(),
+    //! a reset() token, Token(0,pos)), "forged" (id != 0 that this cabinet never paired with that position)
+    void count_non_live(const char *kind, const Token &t, bool is_free) {
+        if (kind[0] == 's') { if (is_free) CNT("cab_free_stale_rejected"); else CNT("cab_update_stale_rejected"); }
+        else if (kind[0] == 'n') {
+            if (is_free) CNT("cab_null_token_free"); else CNT("cab_null_token_update");
+            if (slot_is_free(t.pos())) { if (is_free) CNT("cab_null_token_free_on_free_slot"); else CNT("cab_null_token_update_on_free_slot"); }
+            if (t.pos() != 0) CNT("cab_null_token_nonzero_pos");
+        } else CNT("cab_forged_token_ops");
+    }
+
+    //! free() with a token that is not live: nothing may happen
+    void op_free_stale(const Token &t, const char *kind = "stale") {
         size_t before;
         Obj *r;
         { Lib l; before = cab->size(); r = cab->free(t); }
-        g->sig.add(4);
-        logop(vh::fmt("free_stale(%zu,%zu)", t.id(), t.pos()));
-        CNT("cab_free_stale_rejected");
-        CHK(r == nullptr, "cabinet/free/stale-token-freed-something",
-            "free() of stale token (id=%zu,pos=%zu) returned %p instead of nothing", t.id(), t.pos(), (void *)r);
+        g->sig.add(4); g->sig.add((uint64_t)kind[0]);
+        logop(vh::fmt("free_%s(%zu,%zu)", kind, t.id(), t.pos()));
+        count_non_live(kind, t, true);
+        CHK(r == nullptr, std::string("cabinet/free/") + kind + "-token-freed-something",
+            "free() of %s token (id=%zu,pos=%zu) returned %p instead of nothing", kind, t.id(), t.pos(), (void *)r);
         size_t after; { Lib l; after = cab->size(); }
-        CHK(after == before, "cabinet/free/stale-token-changed-size",
-            "free() of stale token (id=%zu,pos=%zu) changed size() from %zu to %zu", t.id(), t.pos(), before, after);
+        CHK(after == before, std::string("cabinet/free/") + kind + "-token-changed-size",
+            "free() of %s token (id=%zu,pos=%zu) changed size() from %zu to %zu", kind, t.id(), t.pos(), before, after);
     }
 
     void op_update_live(const TKey &k, bool with_obj) {
@@ -279,14 +298,58 @@ struct CabWorld {
         if (o) holder[o] = k;
     }
 
-    void op_update_stale(const Token &t) {
+    //! update() with a token that is not live: must be refused
+    void op_update_stale(const Token &t, const char *kind = "stale") {
         Obj *o = new_obj();
         bool ok;
         { Lib l; ok = cab->update(t, o); }
-        g->sig.add(6);
-        logop(vh::fmt("update_stale(%zu,%zu)", t.id(), t.pos()));
-        CNT("cab_update_stale_rejected");
-        CHK(!ok, "cabinet/update/stale-token-accepted", "update() of stale token (id=%zu,pos=%zu) returned true", t.id(), t.pos());
+        g->sig.add(6); g->sig.add((uint64_t)kind[0]);
+        logop(vh::fmt("update_%s(%zu,%zu)", kind, t.id(), t.pos()));
+        count_non_live(kind, t, false);
+        CHK(!ok, std::string("cabinet/update/") + kind + "-token-accepted", "update() of %s token (id=%zu,pos=%zu) returned true",
+            kind, t.id(), t.pos());
+    }
+
+    //! at() and [] with a token that is not live (null / forged): nothing
+    void op_lookup_non_live(const Token &t, const char *kind) {
+        Obj *a, *b;
+        { Lib l; a = cab->at(t); b = (*cab)[t]; }
+        g->sig.add(10); g->sig.add((uint64_t)kind[0]);
+        logop(vh::fmt("at_%s(%zu,%zu)", kind, t.id(), t.pos()));
+        if (kind[0] == 'n') CNT("cab_null_token_lookup"); else CNT("cab_forged_token_ops");
+        CHK(a == nullptr && b == nullptr, std::string("cabinet/at/") + kind + "-token-resolves",
+            "%s token (id=%zu,pos=%zu) resolves to at()=%p []=%p", kind, t.id(), t.pos(), (void *)a, (void *)b);
+    }
+
+    //! a token with id 0: default constructed, a real token after reset(), or id 0 with an arbitrary position
+    Token make_null_token(vh::Rng &r) {
+        size_t cells = used_pos.size();
+        switch (r.below(8)) {
+            case 0: case 1: return Token();
+            case 2: case 3: { Token t = issued_order.empty() ? Token(7, 3) : issued_order[r.below(issued_order.size())]; t.reset(); return t; }
+            case 4: return Token(0, cells ? (size_t)r.below(cells) : 0);     // some existing cell
+            case 5: return Token(0, cells);                                   // one past the last cell
+            case 6: return Token(0, cells + 1 + (size_t)r.below(4));
+            default: return Token(0, std::numeric_limits<size_t>::max() - (size_t)r.below(2));
+        }
+    }
+    //! a token with a non-zero id that is not live and was never issued by this cabinet
+    Token make_forged_token(vh::Rng &r) {
+        size_t cells = used_pos.size();
+        size_t max_id = issued_order.empty() ? 0 : issued_order.back().id();
+        for (int tries = 0; tries < 8; ++tries) {
+            Token t;
+            switch (r.below(6)) {
+                case 0: t = Token(live.empty() ? 1 : live.begin()->first.first, cells); break;                         // live id, one past the end
+                case 1: t = Token(live.empty() ? 1 : live.rbegin()->first.first, std::numeric_limits<size_t>::max()); break;
+                case 2: t = Token(live.empty() ? 1 : live.begin()->first.first, cells ? (size_t)r.below(cells) : 0); break;   // live id, another cell
+                case 3: t = Token(max_id + 1 + (size_t)r.below(3), cells ? (size_t)r.below(cells) : 0); break;          // id not issued yet
+                case 4: t = Token(std::numeric_limits<size_t>::max(), cells ? (size_t)r.below(cells) : 0); break;
+                default: t = Token(1 + (size_t)r.below(max_id + 1), cells + (size_t)r.below(3)); break;                 // any id, out of range
+            }
+            if (!t.isNull() && !issued.count(keyof(t))) return t;
+        }
+        return Token(std::numeric_limits<size_t>::max(), std::numeric_limits<size_t>::max());
     }
 
     void op_clear() {
@@ -369,10 +432,13 @@ struct CabWorld {
                 model_free(k);
                 if (identified && k == cur) ++freed_cur; else ++freed_other;
             } else if (act == V_FREE_STALE && !stale.empty()) {
-                const Token t = stale[pick(stale.size())];
+                const bool use_null = pick(3) == 0;
+                const Token t = use_null ? Token() : stale[pick(stale.size())];
+                if (use_null) count_non_live("null", t, true);
                 Obj *r; { Lib l; r = cab->free(t); }
-                CHK(r == nullptr, "cabinet/free/stale-token-freed-something",
-                    "free() (inside foreach) of stale token (id=%zu,pos=%zu) returned %p", t.id(), t.pos(), (void *)r);
+                if (g->record) { g->script += vh::fmt("free_%s(%zu,%zu),", use_null ? "null" : "stale", t.id(), t.pos()); }
+                CHK(r == nullptr, use_null ? "cabinet/free/null-token-freed-something" : "cabinet/free/stale-token-freed-something",
+                    "free() (inside foreach) of %s token (id=%zu,pos=%zu) returned %p", use_null ? "null" : "stale", t.id(), t.pos(), (void *)r);
             } else if (act == V_LOOKUP && !live.empty()) {
                 auto it = live.begin(); std::advance(it, (long)pick(live.size()));
                 Obj *r; { Lib l; r = cab->at(it->second.tok); }
@@ -441,7 +507,23 @@ struct CabWorld {
             if (idx < stale_before_clear) CNT("cab_stale_lookup_after_clear");
         }
         CNTN("cab_stale_lookup", recent + extra);
-        { Lib l; CHK(cab->at(Token()) == nullptr, "cabinet/at/null-token-resolves", "the null token resolves to an object"); }
+        {
+            const size_t cells = used_pos.size(), big = std::numeric_limits<size_t>::max();
+            const Token probes[] = {Token(), Token(0, 1), Token(0, cells ? cells - 1 : 0), Token(0, cells), Token(0, big),
+                                    Token(big, 0), Token(big, cells), Token(1, big)};
+            for (const Token &t : probes) {
+                if (live.count(keyof(t))) continue;
+                Obj *a, *b;
+                { Lib l; a = cab->at(t); b = (*cab)[t]; }
+                if (a != nullptr || b != nullptr) {
+                    fail(t.isNull() ? "cabinet/at/null-token-resolves" : "cabinet/at/forged-token-resolves",
+                         vh::fmt("token (id=%zu,pos=%zu), which is not the token of any entry, resolves to at()=%p []=%p",
+                                 t.id(), t.pos(), (void *)a, (void *)b));
+                    return;
+                }
+            }
+            CNTN("cab_null_token_lookup", 5);
+        }
     }
 
     //! Token's own comparison operators and hash agree with (id,pos) equality on the live tokens
@@ -481,7 +563,8 @@ void cabinet_case(uint64_t, vh::Rng &r) {
             if (phase_left-- <= 0) { phase = (int)r.below(3); phase_left = 8 + (int)r.below(40); }
             int alloc_w = phase == 1 ? 60 : phase == 2 ? 10 : 30;
             int free_w = phase == 2 ? 60 : phase == 1 ? 10 : 30;
-            int total = alloc_w + free_w + 6 /*free stale*/ + 8 /*update*/ + 5 /*update stale*/ + clear_w + 8 /*foreach*/ + 2 /*reserve*/;
+            int total = alloc_w + free_w + 6 /*free stale*/ + 8 /*update*/ + 5 /*update stale*/ + clear_w + 8 /*foreach*/ + 2 /*reserve*/
+                        + 7 /*null or forged token*/;
             int x = (int)r.below((uint64_t)total);
             auto pick_live = [&]() -> TKey {
                 // newest, oldest or uniformly random entry
@@ -510,6 +593,16 @@ void cabinet_case(uint64_t, vh::Rng &r) {
                 if (!w.stale.empty()) w.op_update_stale(pick_stale()); else w.op_alloc(true);
             } else if ((x -= clear_w) < 0) {
                 w.op_clear();
+            } else if ((x -= 7) < 0) {
+                // a token that is not the token of any entry: nothing may happen, whatever is done with it
+                const bool null_tok = !r.chance(1, 4);
+                const Token t = null_tok ? w.make_null_token(r) : w.make_forged_token(r);
+                const char *kind = null_tok ? "null" : "forged";
+                switch (r.below(5)) {
+                    case 0: case 1: w.op_free_stale(t, kind); break;
+                    case 2: case 3: w.op_update_stale(t, kind); break;
+                    default: w.op_lookup_non_live(t, kind); break;
+                }
             } else if ((x -= 8) < 0) {
                 int style = (int)r.below(5);   // 0 read-only, 1 free every current, 2 random mix, 3 free others, 4 drain from first visit
                 w.op_foreach(
@@ -539,10 +632,11 @@ void cabinet_case(uint64_t, vh::Rng &r) {
 }
 
 // ---- exhaustive cabinet histories -----------------------------------------------------------------
-// alphabet (15): alloc(obj), alloc(), free(#0..#5), update(#0..#2), clear, foreach{none}, foreach{free current},
-// foreach{free another entry}.  #k = the (k mod n)-th of the n tokens the cabinet has issued so far in this history
-// (live or stale, whichever it is by then); before the first alloc the operation is applied to the null token.
-const int CABX_ALPHA = 15;
+// alphabet (16): alloc(obj), alloc(), free(#0..#4), update(#0..#2), clear, foreach{none}, foreach{free current},
+// foreach{free another entry}, free(null token), update(null token).  #k = the (k mod n)-th of the n tokens the cabinet
+// has issued so far in this history (live or stale, whichever it is by then); before the first alloc the operation is
+// applied to the null token. The null token is Token() == a reset() token == (id 0, pos 0).
+const int CABX_ALPHA = 16;
 
 bool cabx_run(uint64_t idx, int depth, bool record, Ctx &c) {
     c = Ctx(); c.record = record; g = &c;
@@ -556,13 +650,15 @@ bool cabx_run(uint64_t idx, int depth, bool record, Ctx &c) {
             c.sig.add((uint64_t)op);
             if (op == 0) w.op_alloc(true);
             else if (op == 1) w.op_alloc(false);
-            else if (op <= 7 || (op >= 8 && op <= 10)) {
-                size_t k = op <= 7 ? (size_t)(op - 2) : (size_t)(op - 8);
-                bool is_free = op <= 7;
+            else if (op == 14) w.op_free_stale(Token(), "null");
+            else if (op == 15) { Token t = w.issued_order.empty() ? Token() : w.issued_order[0]; t.reset(); w.op_update_stale(t, "null"); }
+            else if (op <= 9) {
+                size_t k = op <= 6 ? (size_t)(op - 2) : (size_t)(op - 7);
+                bool is_free = op <= 6;
                 if (w.issued_order.empty()) {
                     // nothing issued yet: the null token; nothing may happen
                     Token nul;
-                    if (is_free) w.op_free_stale(nul); else w.op_update_stale(nul);
+                    if (is_free) w.op_free_stale(nul, "null"); else w.op_update_stale(nul, "null");
                 } else {
                     Token t = w.issued_order[k % w.issued_order.size()];
                     bool is_live = w.live.count(keyof(t)) != 0;
@@ -570,9 +666,9 @@ bool cabx_run(uint64_t idx, int depth, bool record, Ctx &c) {
                     else { if (is_live) w.op_update_live(keyof(t), true); else w.op_update_stale(t); }
                 }
             }
-            else if (op == 11) w.op_clear();
+            else if (op == 10) w.op_clear();
             else {
-                int act = op == 12 ? CabWorld::V_NONE : op == 13 ? CabWorld::V_FREE_CURRENT : CabWorld::V_FREE_OTHER;
+                int act = op == 11 ? CabWorld::V_NONE : op == 12 ? CabWorld::V_FREE_CURRENT : CabWorld::V_FREE_OTHER;
                 w.op_foreach([&](size_t) { return act; }, [&](size_t n) { return n - 1; });
             }
             w.verify(nullptr, true);
